@@ -408,6 +408,8 @@ def part3_conversions(ctx):
         # the property's domain for that format and the generator is wrong, not the implementation)
         for a in fmts:
             for b in fmts:
+                if name == "positional" and ctx.tier == "quick" and "nidx" not in (a, b):
+                    continue        # the pairs without nidx are exercised by the class "tokens"
                 if (name, a) in canon and (name, b) in canon:
                     jobs.append((name, a, b))
     def conv(job):
@@ -424,7 +426,9 @@ def part3_conversions(ctx):
         npairs += 1
         if cls != "ok" or out != canon[(name, b)]:
             failing.append((name, a, b, cls, out, err))
-    ntriples = sum(len(f) ** 3 for _, _, f in classes)
+    jobset = set(jobs)
+    ntriples = sum(1 for n, _, f in classes for a in f for c in f for b in f
+                   if (n, a, c) in jobset and (n, c, b) in jobset and (n, a, b) in jobset)
     ctx.cov["p3_conversions"] = {"ordered_pairs_run": npairs, "triples_covered_by_transitivity": ntriples, "failing_pairs": len(failing)}
     rep = 0
     seen_cls = set()
@@ -526,9 +530,11 @@ def run(ctx):
         ctx.cov["flag_oracle"] = {"mismatches": len(flag_bad), "classes": sorted(seen)}
         flag_bad += io_name_probes(ctx)
     p1_bad, p3_bad = [], []
+    # the flatten/unflatten correspondence only needs Harness.vo: run it even when a flag-table obligation broke
+    harness_ok = ok or coq_make(["C02/Harness.vo"])[0]
     if "1" in parts:
         with ctx.timed("part1"):
-            p1_bad = part1_flatten_unflatten(ctx, ok)
+            p1_bad = part1_flatten_unflatten(ctx, harness_ok)
     if "3" in parts:
         with ctx.timed("part3"):
             p3_bad = part3_conversions(ctx)
@@ -557,7 +563,18 @@ def replay(ctx, path):
         if not res or res[0] != r:
             ctx.violation(dict(obj, replayed=True, observed=jdumps(res[0]) if res else None))
         return
-    if obj.get("class", "").startswith("conversion:"):
+    if obj.get("class", "").startswith("yaml-reader-"):
+        st, out, err = mlr_run(ctx, ["--iyaml", "--ojsonl", "cat"], obj["input"].encode())
+        ctx.count(("replay", obj["class"]))
+        print("replay: %r -> %r (expected %r)" % (obj["input"], out, obj["expected"]))
+        if out.decode("utf-8", "replace") != obj["expected"]:
+            ctx.violation(dict(obj, replayed=True, observed=out.decode("utf-8", "replace")))
+        return
+    if obj.get("class", "").endswith("-rejected"):
+        for b in io_name_probes(ctx):
+            print("replay: still differs:", b["how"])
+        return
+    if obj.get("class", "").startswith("conversion") and "from" in obj:
         a, b = obj["from"], obj["to"]
         st, out, err = mlr_run(ctx, IN_FLAG[a] + OUT_FLAG[b] + ["cat"], obj["input"].encode())
         st2, mid, err2 = mlr_run(ctx, IN_FLAG[a] + ["--ojson", "cat"], obj["input"].encode())
@@ -567,6 +584,12 @@ def replay(ctx, path):
         if out != out2 or st != 0:
             ctx.violation(dict(obj, replayed=True))
         return
-    if c02_flags is not None and hasattr(c02_flags, "replay"):
-        return c02_flags.replay(ctx, obj)
+    if obj.get("class", "").startswith("flag-spelling:") and c02_flags is not None:
+        # re-run the spelling oracle (it is cheap) and report the stored class again if it is still among the mismatches
+        c02_flags.gen_flags(ctx)
+        still = [b for b in (c02_flags.flag_oracle(ctx) or []) if b.get("class") == obj["class"]]
+        print("replay: class %s: %d mismatching comparisons now" % (obj["class"], len(still)))
+        if still:
+            ctx.violation(dict(still[0], replayed=True))
+        return
     print("replay: nothing to re-run for", path)
